@@ -274,6 +274,10 @@ pub fn take_log() -> Vec<Entry> {
     W.with(|w| std::mem::take(&mut w.borrow_mut().log))
 }
 
+pub fn set_real_mode(on: bool) {
+    W.with(|w| w.borrow_mut().real_mode = on);
+}
+
 pub fn begin_teardown() {
     W.with(|w| w.borrow_mut().teardown = true);
 }
